@@ -114,6 +114,9 @@ struct CaseTimer {
     ~CaseTimer() { g_case_started_ms.store(0); }
 };
 
+// a small trivially copyable payload: libraries sometimes special-case such types (lock-free fast paths)
+struct Pod16 { uint64_t a, b; bool operator==(const Pod16& o) const { return a == o.a && b == o.b; } };
+
 int active_fibers(const vh::Case& c) { int n = 0; for (auto& f : c.fibers) if (!f.empty()) n++; return n; }
 
 // ------------------------------------------------------------------------------------------------ subjects
@@ -197,6 +200,38 @@ void sj_lr(const vh::Case& c, Failure& F, int reps) {
     if ((long)h->size() != mods.load()) F.report("final-value", "lr_guarded lost a modification");
 }
 
+// trivially copyable payloads on the lock wrappers and the left-right / rcu structures
+void sj_pod_mix(const vh::Case& c, Failure& F, int reps) {
+    lg::guarded<Pod16> g(Pod16{0, 0});
+    lg::ordered_guarded<Pod16> og(Pod16{0, 0});
+    lg::lr_guarded<Pod16> lr(Pod16{0, 0});
+    lg::cow_guarded<Pod16> cow(Pod16{0, 0});
+    lg::rcu_guarded<lg::rcu_list<int>> rl;
+    { auto h = rl.lock_write(); for (int i = 0; i < 3; ++i) h->push_back(i); }
+    auto ok = [&](const Pod16& v, const char* what) { if (v.a != v.b) F.report("torn", std::string(what) + " returned a partially written value"); };
+    run_threads((int)c.fibers.size(), [&](int t) {
+        uint64_t mine = (uint64_t)(t + 1) << 32;
+        for (int r = 0; r < reps * 2; ++r) for (auto& op : c.fibers[(size_t)t]) {
+            jitter(op.b & 1);
+            ++mine;
+            switch (op.code % 12) {
+                case 0: ok(g.load(), "guarded::load"); break;
+                case 1: g.store(Pod16{mine, mine}); break;
+                case 2: { auto h = g.lock(); ok(*h, "guarded handle"); h->a = mine; h->b = mine; break; }
+                case 3: ok(og.load(), "ordered_guarded::load"); og.modify([&](Pod16& p) { p.a = mine; p.b = mine; }); break;
+                case 4: og.read([&](const Pod16& p) { ok(p, "ordered_guarded::read"); }); og = Pod16{mine, mine}; break;
+                case 5: lr.modify([&](Pod16& p) { p.a = mine; p.b = mine; }); break;
+                case 6: { auto h = lr.lock_shared(); ok(*h, "lr_guarded handle"); jitter(op.a & 3); ok(*h, "lr_guarded handle (held)"); break; }
+                case 7: { auto h = cow.lock(); h->a = mine; h->b = mine; break; }
+                case 8: { auto s2 = (op.a & 1) ? cow.try_lock_shared() : cow.lock_shared(); if (s2) ok(*s2, "cow snapshot"); break; }
+                case 9: { auto h = rl.lock_read(); long sum = 0; for (auto it = h->begin(); it != h->end(); it++) sum += *it; (void)sum; break; }
+                case 10: { auto h = rl.lock_write(); h->push_front(t); break; }
+                default: { auto h = rl.lock_write(); auto it = h->begin(); if (it != h->end()) h->erase(it); break; }
+            }
+        }
+    });
+}
+
 void sj_cow(const vh::Case& c, Failure& F, int reps) {
     lg::cow_guarded<Payload> g;
     std::atomic<long> commits{0};
@@ -270,8 +305,6 @@ void sj_atomic(const vh::Case& c, Failure& F, int reps) {
     });
 }
 
-// a small trivially copyable payload: libraries sometimes special-case such types (lock-free fast paths)
-struct Pod16 { uint64_t a, b; bool operator==(const Pod16& o) const { return a == o.a && b == o.b; } };
 void sj_atomic_pod(const vh::Case& c, Failure& F, int reps) {
     lg::atomic_guarded<Pod16> g(Pod16{0, 0});
     run_threads((int)c.fibers.size(), [&](int t) {
@@ -440,7 +473,7 @@ vh::Outcome run_rt(const vh::Case& c0, int only_subject) {
     switch (sj) {
         case SJ_GUARDED: if (variant & 1) sj_guarded<rtstd::timed_mutex>(c, F, reps); else sj_guarded<std::mutex>(c, F, reps); break;
         case SJ_SHARED: if (variant & 1) sj_shared<rtstd::shared_timed_mutex>(c, F, reps); else sj_shared<std::shared_mutex>(c, F, reps); break;
-        case SJ_ORDERED: sj_ordered(c, F, reps); break;
+        case SJ_ORDERED: if (variant & 1) sj_pod_mix(c, F, reps); else sj_ordered(c, F, reps); break;
         case SJ_LR: sj_lr(c, F, reps); break;
         case SJ_COW: sj_cow(c, F, reps); break;
         case SJ_DEFERRED: sj_deferred(c, F, reps); break;
